@@ -4,7 +4,9 @@ package indexer
 //   CIndex  the real KVIndexer fed block by block (+ re-indexing), once with the real ExecTxResults and once with
 //           mutated ones; DB dump and every lookup against the model;
 //   CSvc    the real EVMIndexerService over a fake CometBFT RPC client, killed at a write boundary of the index DB
-//           and restarted (several lives); DB dump after every life against the model;
+//           and restarted (several lives), with transient failures of the node client (Status / Subscribe at start,
+//           Block / BlockResults in the catch-up loop and in the live new-block loop); DB dump after every life
+//           against the model;
 //   CRpc    the real rpc Backend (receipts, transactions, blocks, logs) over the same fake client against the model.
 // The Go oracle (from the property text, independent of the model) compares lookups and RPC views with the consensus
 // results, re-indexing with idempotence, and every crash/restart history with an uninterrupted run.
@@ -16,12 +18,14 @@ import (
 	"math/big"
 	"sort"
 	"strings"
+	"sync"
 	"testing"
 	"time"
 
 	"cosmossdk.io/log"
 	abci "github.com/cometbft/cometbft/abci/types"
 	cmtlog "github.com/cometbft/cometbft/libs/log"
+	cmttypes "github.com/cometbft/cometbft/types"
 	sdkdb "github.com/cosmos/cosmos-db"
 	"github.com/ethereum/go-ethereum/common"
 	"github.com/ethereum/go-ethereum/common/hexutil"
@@ -39,6 +43,8 @@ import (
 
 const (
 	sigEmptyRestart = "C14/indexer/empty-db-restart-skips-committed-block"
+	sigGiveUp       = "C14/indexer/startup-gives-up-after-11-failed-fetches"
+	sigRpcPrefix    = "C14/indexer/not-convergent-after-transient-rpc-failure/"
 	sigNotConverge  = "C14/indexer/crash-not-convergent"
 	sigReindex      = "C14/indexer/reindex-changes-index"
 	sigLookup       = "C14/indexer/lookup-disagrees-with-block-position"
@@ -60,8 +66,8 @@ func TestDriverIndexer(t *testing.T) {
 	rng := NewRng(seed)
 	side := NewSidecar("indexer", seed,
 		"one generated chain (2-10 blocks of 0-7 mixed Ethereum/Cosmos/garbage txs, all outcome classes, small block gas limits) yields: CIndex (KVIndexer fed with real results incl. re-indexing), "+
-			"CIndex-mutated (results with stripped/corrupted events and flipped codes), CSvc (EVMIndexerService lives with kill points at index-DB write boundaries and restarts), CRpc (Backend receipts/txs/blocks/logs); "+
-			"non-trivial = the chain has an admitted-but-failed or rejected/dropped Ethereum tx or a multi-tx block (CIndex/CRpc), or a life killed before completion / restarted while lagging (CSvc); distinct by chain content and schedule")
+			"CIndex-mutated (results with stripped/corrupted events and flipped codes), CSvc (EVMIndexerService lives with kill points at index-DB write boundaries, restarts and transient node-client failures: Status/Subscribe at start, patterns of failing Block/BlockResults calls per height in catch-up and live loop), CRpc (Backend receipts/txs/blocks/logs); "+
+			"non-trivial = the chain has an admitted-but-failed or rejected/dropped Ethereum tx or a multi-tx block (CIndex/CRpc), or a life killed before completion / restarted while lagging / with a served node-client failure (CSvc); distinct by chain content and schedule")
 	cases := NewCases(dir, "From Evm Require Import Indexer CorrIndexer.", "indexer_mismatches")
 	d := &driver{t: t, side: side, cases: cases, seed: seed}
 	for i := 0; i < n; i++ {
@@ -463,41 +469,89 @@ func (d *driver) mutatedCase(ci int, r *Rng, w *world, canon string) {
 // ------------------------------------------------------------------ CSvc
 
 type incSpec struct {
-	Start int64 `json:"node_height_at_start"`
-	End   int64 `json:"node_height_at_end"`
-	Kill  int   `json:"killed_after_writes"` // <0: not killed
+	Start     int64                 `json:"node_height_at_start"`
+	End       int64                 `json:"node_height_at_end"`
+	Kill      int                   `json:"killed_after_writes"` // <0: not killed
+	StartFail string                `json:"start_fails_at,omitempty"` // "Status" | "Subscribe": OnStart returns an error
+	Plan      map[int64]*heightPlan `json:"node_client_failures,omitempty"`
 }
 
 const waitLimit = 20 * time.Second
 
-func waitFor(t *testing.T, what string, cond func() bool) {
-	deadline := time.Now().Add(waitLimit) // synchronisation only; no observation depends on the clock
+// waitFor polls cond (synchronisation only; no observation depends on the clock); false = it never held.
+func waitFor(cond func() bool) bool {
+	deadline := time.Now().Add(waitLimit)
 	for !cond() {
 		if time.Now().After(deadline) {
-			t.Fatalf("indexer service did not settle: %s", what)
+			return false
 		}
 		time.Sleep(200 * time.Microsecond)
 	}
+	return true
 }
 
-// runLife runs one life of the real EVMIndexerService over the (surviving) inner DB. Returns whether the DB was
-// empty when the life began and whether it was killed.
-func (d *driver) runLife(w *world, inner sdkdb.DB, earliest int64, in incSpec) (emptyAtStart bool, killed bool) {
+// recIndexer is the real KVIndexer; it only records which heights IndexBlock accepted (returned nil).
+type recIndexer struct {
+	*kvindexer.KVIndexer
+	mu sync.Mutex
+	ok map[int64]bool
+}
+
+func (r *recIndexer) IndexBlock(b *cmttypes.Block, res []*abci.ExecTxResult) error {
+	err := r.KVIndexer.IndexBlock(b, res)
+	if err == nil {
+		r.mu.Lock()
+		r.ok[b.Height] = true
+		r.mu.Unlock()
+	}
+	return err
+}
+
+func (r *recIndexer) indexed(h int64) bool {
+	r.mu.Lock()
+	defer r.mu.Unlock()
+	return r.ok[h]
+}
+
+type lifeObs struct {
+	emptyAtStart bool
+	killed       bool
+	startFailed  bool
+	stalled      string          // non-empty: the service never got where it had to
+	indexedOK    map[int64]bool  // heights IndexBlock accepted during this life
+	served       []servedFail    // node-client failures served during this life
+	cursor       int64           // where the documented resume rule puts the cursor
+}
+
+// runLife runs one life of the real EVMIndexerService over the (surviving) inner DB.
+func (d *driver) runLife(w *world, inner sdkdb.DB, earliest int64, in incSpec) lifeObs {
 	t := d.t
 	kdb := newKillDB(inner, in.Kill)
-	idx := w.newIndexer(kdb)
+	idx := &recIndexer{KVIndexer: w.newIndexer(kdb), ok: map[int64]bool{}}
 	last, err := idx.LastIndexedBlock()
 	require.NoError(t, err)
-	emptyAtStart = last == -1
-	fc := &fakeClient{w: w, latest: in.Start, earliest: earliest}
+	obs := lifeObs{emptyAtStart: last == -1}
+	fc := &fakeClient{w: w, latest: in.Start, earliest: earliest, failStatus: in.StartFail == "Status", failSubscribe: in.StartFail == "Subscribe",
+		plan: map[int64]*heightPlan{}}
+	for h, hp := range in.Plan {
+		fc.plan[h] = &heightPlan{Block: append([]bool{}, hp.Block...), Results: append([]bool{}, hp.Results...)}
+	}
 	svc := evmserver.NewEVMIndexerService(idx, fc)
 	svc.SetLogger(cmtlog.NewNopLogger())
 	done := make(chan struct{})
+	var startErr error
 	go func() {
 		defer close(done)
-		_ = svc.Start()
+		startErr = svc.Start()
 	}()
-	waitFor(t, "ready", func() bool { return idx.IsReady() })
+	returned := func() bool {
+		select {
+		case <-done:
+			return true
+		default:
+			return false
+		}
+	}
 	// where the documented resume rule puts the cursor (used only to know whether work is expected)
 	cur := last
 	if last == -1 {
@@ -505,16 +559,25 @@ func (d *driver) runLife(w *world, inner sdkdb.DB, earliest int64, in incSpec) (
 	} else if last < earliest {
 		cur = earliest
 	}
-	if in.End > in.Start && !kdb.isDead() {
+	obs.cursor = cur
+	if !waitFor(func() bool { return idx.IsReady() || returned() }) {
+		obs.stalled = "never ready"
+	}
+	if returned() && !idx.IsReady() {
+		obs.startFailed = true
+		if in.StartFail == "" {
+			t.Fatalf("service start failed without an injected failure: %v", startErr)
+		}
+	} else if in.StartFail != "" {
+		d.side.Hit("C14/indexer/service-ignores-start-failure/"+in.StartFail, "OnStart went on although "+in.StartFail+" returned an error", in)
+	}
+	if !obs.startFailed && obs.stalled == "" && in.End > in.Start && !kdb.isDead() {
 		fc.announce(in.End)
 		if cur < in.End {
-			waitFor(t, "indexed up to the announced height", func() bool {
-				if kdb.isDead() {
-					return true
-				}
-				l, err := idx.GetLastRequestIndexedBlock()
-				return err == nil && l >= in.End
-			})
+			// quiescence of the live loop: the announced height was handed to IndexBlock (or the process is dead)
+			if !waitFor(func() bool { return kdb.isDead() || idx.indexed(in.End) }) {
+				obs.stalled = "announced height never indexed"
+			}
 		}
 	}
 	_ = svc.Stop()
@@ -526,7 +589,85 @@ func (d *driver) runLife(w *world, inner sdkdb.DB, earliest int64, in incSpec) (
 	for k, v := range kdb.kinds {
 		d.side.Histogram["svc_write_kind:"+k] += v
 	}
-	return emptyAtStart, kdb.isDead()
+	obs.killed = kdb.isDead()
+	idx.mu.Lock()
+	obs.indexedOK = idx.ok
+	idx.mu.Unlock()
+	obs.served = fc.servedFails()
+	return obs
+}
+
+// genPlan: for the heights the life is going to fetch, a pattern of failed passes of the loop ('B' = Block(h) fails,
+// 'R' = Block(h) answers and BlockResults(h) fails), then success.
+func (d *driver) genPlan(r *Rng, cur, start, end int64) map[int64]*heightPlan {
+	plan := map[int64]*heightPlan{}
+	if !r.Chance(65) {
+		return plan
+	}
+	for h := cur + 1; h <= end; h++ {
+		catchUp := h <= start // fetched before the indexer is marked ready: rarer (needs a lagging restart over a non-empty DB), so denser
+		if !r.Chance(map[bool]int{true: 70, false: 35}[catchUp]) {
+			continue
+		}
+		var passes int
+		switch x := r.Intn(100); {
+		case x < 40:
+			passes = 1
+		case x < 65:
+			passes = 2 + r.Intn(8)
+		case x < 80:
+			passes = 10 // the last number of failures the start-up tolerates
+		default:
+			passes = 11 + r.Intn(3)
+		}
+		hp := &heightPlan{}
+		mode := r.Intn(3) // 0: only Block fails, 1: only BlockResults fails, 2: mixed
+		for i := 0; i < passes; i++ {
+			blockFails := mode == 0 || (mode == 2 && r.Chance(50))
+			hp.Block = append(hp.Block, blockFails)
+			if !blockFails {
+				hp.Results = append(hp.Results, true)
+			}
+		}
+		plan[h] = hp
+		phase := "live"
+		if h <= start {
+			phase = "catch-up"
+		}
+		d.side.Count(fmt.Sprintf("svc_plan:%s:failed_passes:%s", phase, map[bool]string{true: "1", false: map[bool]string{true: "2-10", false: "11+"}[passes <= 10]}[passes == 1]))
+	}
+	return plan
+}
+
+func coqBools(bs []bool) string {
+	s := make([]string, len(bs))
+	for i, b := range bs {
+		s[i] = CqBool(b)
+	}
+	return CqList(s)
+}
+
+func coqPlan(plan map[int64]*heightPlan) string {
+	hs := make([]int64, 0, len(plan))
+	for h := range plan {
+		hs = append(hs, h)
+	}
+	sort.Slice(hs, func(i, j int) bool { return hs[i] < hs[j] })
+	items := make([]string, len(hs))
+	for i, h := range hs {
+		items[i] = fmt.Sprintf("HP %s %s %s", CqZi(h), coqBools(plan[h].Block), coqBools(plan[h].Results))
+	}
+	return CqList(items)
+}
+
+// heightOfEntry: the block height an index entry belongs to.
+func (w *world) heightOfEntry(t *testing.T, e kv) int64 {
+	if len(e.k) == 17 && e.k[0] == kvindexer.KeyPrefixTxIndex {
+		return int64(binary.BigEndian.Uint64(e.k[1:9]))
+	}
+	var r evertypes.TxResult
+	require.NoError(t, w.c.S.EncodingConfig.Codec.Unmarshal(e.v, &r))
+	return r.Height
 }
 
 func (d *driver) svcCase(ci int, r *Rng, w *world, views [][]txView, canon string) {
@@ -549,7 +690,7 @@ func (d *driver) svcCase(ci int, r *Rng, w *world, views [][]txView, canon strin
 	lives := r.Intn(4)
 	for j := 0; j < lives; j++ {
 		start := node
-		if j > 0 && r.Chance(45) { // the node had committed more than the indexer saw when the process died
+		if j > 0 && r.Chance(55) { // the node had committed more than the indexer saw when the process died
 			start += int64(1 + r.Intn(3))
 		}
 		if start > n {
@@ -560,38 +701,92 @@ func (d *driver) svcCase(ci int, r *Rng, w *world, views [][]txView, canon strin
 		if r.Chance(20) {
 			kill = 0
 		}
-		incs = append(incs, incSpec{start, end, kill})
+		in := incSpec{Start: start, End: end, Kill: kill}
+		if j > 0 && r.Chance(12) { // the node does not answer Status / refuses the subscription: the process fails to start
+			in.StartFail = []string{"Status", "Subscribe"}[r.Intn(2)]
+			in.End = start
+			end = start
+		}
+		incs = append(incs, in)
 		node = end
 	}
 	start := node
-	if lives > 0 && r.Chance(45) {
+	if lives > 0 && r.Chance(55) {
 		start += int64(1 + r.Intn(3))
 		if start > n {
 			start = n
 		}
 	}
-	incs = append(incs, incSpec{start, n, -1})
+	incs = append(incs, incSpec{Start: start, End: n, Kill: -1})
 
+	hasEth := func(h int64) bool {
+		for _, v := range views[h-1] {
+			if v.admitted() {
+				return true
+			}
+		}
+		return false
+	}
 	inner := sdkdb.NewMemDB()
-	var dumps, incTerms []string
-	emptyRestart, killedEarly, lagging := false, false, false
+	var dumps, lifeTerms []string
+	var obs []lifeObs
+	killedEarly, lagging, anyFailure := false, false, false
 	reached := s0
-	for j, in := range incs {
-		empty, killed := d.runLife(w, inner, earliest, in)
-		if j > 0 && empty && in.Start > reached {
-			emptyRestart = true
+	for j := range incs {
+		in := &incs[j]
+		// the node-client failures of this life are drawn knowing where the service will resume (the surviving DB tells)
+		if in.StartFail == "" {
+			last, err := kvindexer.LoadLastBlock(inner)
+			require.NoError(t, err)
+			cur := last
+			if last == -1 {
+				cur = in.Start
+			} else if last < earliest {
+				cur = earliest
+			}
+			in.Plan = d.genPlan(r.Fork(uint64(100+j)), cur, in.Start, in.End)
+		}
+		o := d.runLife(w, inner, earliest, *in)
+		obs = append(obs, o)
+		if o.stalled != "" {
+			d.side.Hit("C14/indexer/service-stalls", "the service did not get where it had to: "+o.stalled, map[string]interface{}{"chain": ci, "life": j, "lives": incs})
 		}
 		if j > 0 && in.Start > reached {
 			lagging = true
 		}
-		if killed {
+		switch {
+		case o.startFailed:
+			d.side.Count("svc:life_failed_to_start:" + in.StartFail)
+			anyFailure = true
+		case o.killed:
 			killedEarly = true
 			d.side.Count("svc:life_killed")
-		} else {
+		default:
 			d.side.Count("svc:life_completed")
 		}
+		pre := map[int64]int{}
+		for _, f := range o.served {
+			if f.h == 0 {
+				continue
+			}
+			anyFailure = true
+			phase := "live"
+			if f.h <= in.Start {
+				phase = "catch-up"
+				pre[f.h]++
+			}
+			d.side.Count("svc_rpc_failure_served:" + phase + ":" + f.call)
+			if f.h < in.End && hasEth(f.h) {
+				d.side.Count("svc_rpc_failure_served:" + phase + ":at_a_height_with_eth_txs_that_is_not_the_last_of_the_range")
+			}
+		}
+		for _, c := range pre {
+			if c >= 11 {
+				d.side.Count("svc:catch_up_height_failed_11_times")
+			}
+		}
 		// what the indexer is known to have reached: the DB content tells (blocks without Ethereum txs leave nothing)
-		if !killed && in.End > reached {
+		if !o.killed && !o.startFailed && in.End > reached {
 			reached = in.End
 		}
 		dumps = append(dumps, coqDump(t, w, dumpDB(t, inner)))
@@ -599,32 +794,147 @@ func (d *driver) svcCase(ci int, r *Rng, w *world, views [][]txView, canon strin
 		if k < 0 {
 			k = 999
 		}
-		incTerms = append(incTerms, fmt.Sprintf("Inc %s %s %s", CqZi(in.Start), CqZi(in.End), CqNat(k)))
+		lifeTerms = append(lifeTerms, fmt.Sprintf("SL (Inc %s %s %s) %s %s", CqZi(in.Start), CqZi(in.End), CqNat(k), CqBool(in.StartFail != ""), coqPlan(in.Plan)))
 	}
 	final := dumpDB(t, inner)
-	// oracle: an uninterrupted run over the same chain from the same first start
+	// oracle (property text): an uninterrupted run over the same chain from the same first start, on a node that always answers
 	ref := sdkdb.NewMemDB()
 	ridx := w.newIndexer(ref)
 	for h := s0 + 1; h <= n; h++ {
 		require.NoError(t, ridx.IndexBlock(w.blocks[h-1].block, w.blocks[h-1].res.TxResults))
 	}
 	if earliest <= 1 {
-		if !dumpEq(final, dumpDB(t, ref)) {
-			sig, msg := sigNotConverge, "crash/restart history does not converge to the index of an uninterrupted run"
-			if emptyRestart {
-				sig, msg = sigEmptyRestart, "restart with an EMPTY index DB while the node was ahead: the service resumed at the node's latest height and never indexed the committed blocks in between"
-			}
-			d.side.Hit(sig, msg, map[string]interface{}{"chain": ci, "first_start_height": s0, "lives": incs, "final_keys": len(final), "uninterrupted_keys": len(dumpDB(t, ref))})
-		}
+		d.convergenceOracle(ci, w, s0, incs, obs, final, dumpDB(t, ref))
 		d.side.Count("svc:oracle_checked")
 	} else {
 		d.side.Count("svc:pruned_node_correspondence_only")
 	}
-	if emptyRestart {
-		d.side.Count("svc:restart_with_empty_db_while_lagging")
+	term := fmt.Sprintf("CSvc %s %s %s %s", coqChain(views), CqZi(earliest), CqList(lifeTerms), CqList(dumps))
+	d.add("CSvc", ci, w, views, term, canon+fmt.Sprint(earliest, lifeTerms), killedEarly || lagging || anyFailure, map[string]interface{}{"earliest": earliest, "lives": incs})
+}
+
+// convergenceOracle compares the index after the whole history with the uninterrupted one key by key and attributes
+// every missing block to its cause.  Only two causes are known defects of the unchanged service, and each is recognised
+// by what happened to THAT height, not by what else happened in the run:
+//   (a) the height was committed while the index DB was empty and no life had got that far: a life that started with an
+//       empty DB found the node already past it (resume = node's latest height);
+//   (b) during the catch-up of some life (height <= node height at start) the node client failed 11 times for the height.
+// Anything else is a violation, named after the node-client failure that was served for the missing height if there was one.
+func (d *driver) convergenceOracle(ci int, w *world, s0 int64, incs []incSpec, obs []lifeObs, final, ref []kv) {
+	t := d.t
+	fin := map[string][]byte{}
+	for _, e := range final {
+		fin[string(e.k)] = e.v
 	}
-	term := fmt.Sprintf("CSvc %s %s %s %s", coqChain(views), CqZi(earliest), CqList(incTerms), CqList(dumps))
-	d.add("CSvc", ci, w, views, term, canon+fmt.Sprint(earliest, incs), killedEarly || lagging, map[string]interface{}{"earliest": earliest, "lives": incs})
+	refm := map[string]bool{}
+	missing := map[int64]int{}
+	extra, differ := 0, 0
+	for _, e := range ref {
+		refm[string(e.k)] = true
+		v, ok := fin[string(e.k)]
+		switch {
+		case !ok:
+			missing[w.heightOfEntry(t, e)]++
+		case !bytes.Equal(v, e.v):
+			differ++
+		}
+	}
+	for _, e := range final {
+		if !refm[string(e.k)] {
+			extra++
+		}
+	}
+	where := func(more map[string]interface{}) map[string]interface{} {
+		m := map[string]interface{}{"chain": ci, "first_start_height": s0, "lives": incs, "final_keys": len(final), "uninterrupted_keys": len(ref)}
+		for k, v := range more {
+			m[k] = v
+		}
+		return m
+	}
+	if extra > 0 || differ > 0 {
+		d.side.Hit(sigNotConverge, fmt.Sprintf("after the crash/restart history the index holds %d entries the uninterrupted run does not have and %d entries with another value", extra, differ), where(nil))
+	}
+	hs := make([]int64, 0, len(missing))
+	for h := range missing {
+		hs = append(hs, h)
+	}
+	sort.Slice(hs, func(i, j int) bool { return hs[i] < hs[j] })
+	byCause := map[string][]int64{}
+	var order []string
+	startFail := ""
+	for _, h := range hs {
+		cause := ""
+		maxDone := s0 // highest height IndexBlock accepted in the lives before the current one
+		var firstServed *servedFail
+		firstPhase := ""
+		for j, o := range obs {
+			in := incs[j]
+			if o.startFailed {
+				if startFail == "" {
+					startFail = in.StartFail
+				}
+				continue
+			}
+			if cause == "" && j > 0 && o.emptyAtStart && maxDone < h && h <= in.Start {
+				cause = sigEmptyRestart
+			}
+			nPre := 0
+			for k := range o.served {
+				f := o.served[k]
+				if f.h != h {
+					continue
+				}
+				if firstServed == nil {
+					firstServed = &o.served[k]
+					firstPhase = "live"
+					if h <= in.Start {
+						firstPhase = "catch-up"
+					}
+				}
+				if h <= in.Start {
+					nPre++
+				}
+			}
+			if cause == "" && nPre >= 11 {
+				cause = sigGiveUp
+			}
+			for x := range o.indexedOK {
+				if x > maxDone {
+					maxDone = x
+				}
+			}
+		}
+		if cause == "" {
+			switch {
+			case firstServed != nil:
+				cause = sigRpcPrefix + firstPhase + "-" + firstServed.call
+			case startFail != "":
+				cause = sigRpcPrefix + startFail
+			default:
+				cause = sigNotConverge
+			}
+		}
+		if _, seen := byCause[cause]; !seen {
+			order = append(order, cause)
+		}
+		byCause[cause] = append(byCause[cause], h)
+	}
+	for _, cause := range order {
+		var msg string
+		switch cause {
+		case sigEmptyRestart:
+			msg = "restart with an EMPTY index DB while the node was ahead: the service resumed at the node's latest height and never indexed the blocks committed in between"
+			d.side.Count("svc:blocks_lost_to_empty_db_restart")
+		case sigGiveUp:
+			msg = "the node client failed 11 times in a row for a height while the service was catching up: the service gave up on the block and no later restart indexed it"
+			d.side.Count("svc:blocks_lost_to_start_up_give_up")
+		case sigNotConverge:
+			msg = "crash/restart history does not converge to the index of an uninterrupted run"
+		default:
+			msg = "after transient failures of the node client the service never indexed a block the uninterrupted run indexed (" + strings.TrimPrefix(cause, sigRpcPrefix) + ")"
+		}
+		d.side.Hit(cause, fmt.Sprintf("%s; heights whose entries are missing: %v", msg, byCause[cause]), where(map[string]interface{}{"missing_heights": byCause[cause]}))
+	}
 }
 
 // ------------------------------------------------------------------ CRpc
